@@ -695,6 +695,28 @@ func avoidedClass(tmpl *vh.R, env map[string]*vh.R) string {
 			if !top && len(body.Kids) == 0 {
 				cls = "nested-empty-body"
 			}
+			if !top && len(body.Kids) == 1 {
+				// known finding C21-nested-block: a re-quoted form whose body is ONE statement that is (or evaluates to) a block:
+				// a literal block, or ~unquote{v} of a block-valued variable
+				e := body.Kids[0]
+				for isWrapper(e) {
+					e = e.Kids[0]
+				}
+				if e != nil && e.Slice && e.Tag == "SBlock" {
+					cls = "nested-block"
+				}
+				if o, b := quoteForm(e); o == tUNQ && len(b.Kids) == 1 {
+					v := b.Kids[0]
+					for isWrapper(v) {
+						v = v.Kids[0]
+					}
+					if v != nil && v.Tag == "Ident" && len(v.Atoms) == 1 {
+						if val := env[strings.TrimPrefix(v.Atoms[0], "s:")]; val != nil && val.Slice {
+							cls = "nested-block"
+						}
+					}
+				}
+			}
 			if top && op == tQQ && len(body.Kids) == 1 {
 				e := body.Kids[0]
 				for isWrapper(e) {
@@ -963,12 +985,13 @@ func main() {
 	for _, c := range corpus {
 		runCase(c.src, "corpus", c.key, false)
 	}
-	// chains: every operator sequence of directly nested unquotes at every depth, in every list position (chains.go)
+	// chains: every operator sequence of directly nested unquotes at every depth, in every list position (chains.go);
+	// its generator has its own stream derived from the seed, so the random stream below is the same with and without it
 	maxD, perCombo := 3, 1
 	if a.Thorough() {
 		maxD, perCombo = 4, 4
 	}
-	for _, c := range genChains(rng.Fork(), maxD, perCombo, true) {
+	for _, c := range genChains(vh.NewRng(a.Seed*0x9E3779B1+0xC21), maxD, perCombo, true) {
 		before := idx
 		runCase(c.src, "chains", "", true)
 		if idx != before {
